@@ -329,7 +329,9 @@ def main():
         "not_applicable": na,
         "notes": ("Contract-based deductive verification only (Verus 0.2026.09.13, Kani 0.68/CBMC 6.11). Exit 2 + `UNDECIDED` = tool limit / lost anchor, "
                   "never reported as a violation. Properties planned in DESIGN.md but whose machinery is not finished yet (neither claimed nor N/A): "
-                  + (", ".join(pending) if pending else "none") + ". One fix: commit in /repo (WithTop::is_top), see known_findings.txt."),
+                  + (", ".join(pending) if pending else "none") + ". Three `fix:` commits in /repo (C03 WithTop::is_top, C09 algebra::linearity, C11 FilterMapAsync::size_hint) and two known findings (C03: "
+                  "WithBot<()> and the full SetUnion over bool are greatest but is_top() is false), see known_findings.txt and DESIGN.md section 12. Quick tiers take "
+                  "10-185 s each (about 21 min for all 16 run one after the other on 16 cores); thorough tiers up to ~13 min each."),
     }
     with open(os.path.join(VERIF, "MANIFEST.json"), "w") as f:
         json.dump(man, f, indent=1)
